@@ -6,7 +6,12 @@ package endorse
 
 import (
 	"context"
+	"crypto"
 	"errors"
+	"time"
+
+	"github.com/google/gce-tcb-verifier/keys"
+	styp "github.com/google/gce-tcb-verifier/sign/types"
 
 	rpb "github.com/google/gce-tcb-verifier/proto/releases"
 	"google.golang.org/protobuf/proto"
@@ -25,9 +30,9 @@ type verifEntry struct {
 }
 
 var (
-	verifManifests [][]verifEntry  // registry: serialisation id-1 -> entries
-	verifMessages  []proto.Message // registry for proto.Marshal
-	verifErrIO     = errors.New("verif: injected I/O failure")
+	verifManifests   [][]verifEntry  // registry: serialisation id-1 -> entries
+	verifMessages    []proto.Message // registry for proto.Marshal
+	verifErrIO       = errors.New("verif: injected I/O failure")
 	verifErrNotFound = errors.New("verif: not found")
 )
 
@@ -73,8 +78,11 @@ func verifSerializeManifest(entries []verifEntry) []byte {
 	return append(append([]byte(manifestTextProtoPreamble), byte(len(verifManifests))), '\n')
 }
 
+var verifSnapshots []proto.Message // deep copies taken at marshal time
+
 func verifProtoMarshal(m proto.Message) ([]byte, error) {
 	verifMessages = append(verifMessages, m)
+	verifSnapshots = append(verifSnapshots, verifDeepCopy(m).(proto.Message))
 	return []byte{0xEE, byte(len(verifMessages))}, nil
 }
 
@@ -123,13 +131,13 @@ type verifVCS struct {
 	otherDone  bool
 
 	getCalls, attempts, commits, results, retriableAsked int
-	workspaces                                         []*verifCops
-	lastRetriable, retriedAfterNonRetriable            bool
-	resultCommit                                       any
-	resultPath                                         string
-	otherEntry                                         verifEntry
-	calls                                              int // every VCS/ChangeOps call
-	effects                                            int // workspace creations, writes, mode changes, commits
+	workspaces                                           []*verifCops
+	lastRetriable, retriedAfterNonRetriable              bool
+	resultCommit                                         any
+	resultPath                                           string
+	otherEntry                                           verifEntry
+	calls                                                int // every VCS/ChangeOps call
+	effects                                              int // workspace creations, writes, mode changes, commits
 }
 
 type verifCops struct {
@@ -244,4 +252,52 @@ func (c *verifCops) TryCommit(ctx context.Context) (any, error) {
 	c.committed = true
 	c.vcs.head = c.ws
 	return c.id, nil
+}
+
+// ---- recording CA and signer doubles ----
+
+type verifCA struct{ calls int }
+
+func (c *verifCA) Certificate(ctx context.Context, k string) ([]byte, error) {
+	c.calls++
+	return []byte{0xC1}, nil
+}
+func (c *verifCA) CABundle(ctx context.Context, k string) ([]byte, error) {
+	c.calls++
+	return []byte{0xCB}, nil
+}
+func (c *verifCA) PrimaryRootKeyVersion(ctx context.Context) (string, error) {
+	c.calls++
+	return "root", nil
+}
+func (c *verifCA) PrimarySigningKeyVersion(ctx context.Context) (string, error) {
+	c.calls++
+	return "psk", nil
+}
+func (c *verifCA) NewMutation() styp.CertificateAuthorityMutation {
+	c.calls++
+	return nil
+}
+func (c *verifCA) Finalize(ctx context.Context, m styp.CertificateAuthorityMutation) error {
+	c.calls++
+	return nil
+}
+func (c *verifCA) PrepareResources(ctx context.Context) error { c.calls++; return nil }
+func (c *verifCA) Wipeout(ctx context.Context) error          { c.calls++; return nil }
+
+type verifSigner struct{ calls int }
+
+func (s *verifSigner) PublicKey(ctx context.Context, k string) ([]byte, error) {
+	s.calls++
+	return []byte{1}, nil
+}
+func (s *verifSigner) Sign(ctx context.Context, k string, d styp.Digest, o crypto.SignerOpts) ([]byte, error) {
+	s.calls++
+	return []byte{0x51}, nil
+}
+
+func verifTime() time.Time { return time.Unix(int64(verifNondetU32("ts")), 0) }
+
+func verifKeysCtx(ctx context.Context, ca *verifCA, s *verifSigner) context.Context {
+	return keys.NewContext(ctx, &keys.Context{CA: ca, Signer: s})
 }
